@@ -1,6 +1,7 @@
 #![allow(dead_code, unused_mut)]
 mod decoder;
 mod driver;
+mod exec;
 mod gen;
 mod imp;
 mod json;
